@@ -296,6 +296,33 @@ DumpLoad ==
     /\ hist' = Log([a |-> "dumpload"])
     /\ UNCHANGED <<pc, durable, sigma, ghost>>
 
+\* ---- the feasibility warning of _update_schedules -----------------------------------------
+\* A schedule that violates a network constraint is applied all the same, but the simulator warns
+\* ("Invalid schedule provided at iteration t. Max violation is d A on <constraint> at time index k").
+\* ConsAgg is the single-phase constraint set the replay harness calls "agg" (sum over all stations
+\* <= 40 A, first station <= 20 A; limits in amperes, pilots in 1/PU A): the aggregates are plain sums,
+\* so the verdict is exact in integers (the default tolerance 1e-5 A never decides a lattice case).
+ConsAgg == << [name |-> "agg", coef |-> [s \in Stations |-> 1], lim |-> 40],
+              [name |-> "first", coef |-> [s \in Stations |-> IF s = 1 THEN 1 ELSE 0], lim |-> 20] >>
+RowOf(m, s, k) == LET R == Sched(m).rows IN IF s \in DOMAIN R THEN R[s][k] ELSE 0
+AbsW(x) == IF x < 0 THEN -x ELSE x
+\* excess of constraint c in column k of schedule m, in 1/PU A (positive = violated)
+Excess(cons, m, c, k) == AbsW(SumSet([s \in Stations |-> cons[c].coef[s] * RowOf(m, s, k)], Stations)) - cons[c].lim * PU
+ViolatedCells(cons, m) == {ck \in (DOMAIN cons) \X (1..SLen(m)) : Excess(cons, m, ck[1], ck[2]) > 0}
+\* the cell the warning names: the largest excess, the first such cell in (constraint, column) order
+WorstCell(cons, m) ==
+    LET V == ViolatedCells(cons, m)
+        top == {ck \in V : \A o \in V : Excess(cons, m, o[1], o[2]) <= Excess(cons, m, ck[1], ck[2])}
+    IN CHOOSE ck \in top : \A o \in top : ck[1] < o[1] \/ (ck[1] = o[1] /\ ck[2] <= o[2])
+Warning(cons, m) ==
+    IF DOMAIN Sched(m).rows = {} \/ ViolatedCells(cons, m) = {}
+    THEN [warn |-> FALSE, name |-> "", k |-> 0, ex |-> 0, tie |-> FALSE]
+    ELSE LET w == WorstCell(cons, m)
+             V == ViolatedCells(cons, m)
+         IN [warn |-> TRUE, name |-> cons[w[1]].name, k |-> w[2] - 1, ex |-> Excess(cons, m, w[1], w[2]),
+             \* several cells share the largest excess: which one is named depends on the order of the constraints
+             tie |-> \E o \in V : o # w /\ Excess(cons, m, o[1], o[2]) = Excess(cons, m, w[1], w[2])]
+
 \* _update_schedules(new_schedule)
 
 \* UpdateAt(here, next): the schedule bookkeeping, entered at pc = here and left at pc = next
@@ -315,7 +342,7 @@ UpdateAt(here, next) ==
        /\ schedHist' = Append(schedHist, <<t, m>>)
        /\ lastUpd' = t /\ resolve' = FALSE /\ pc' = next
        /\ invLog' = Append(invLog, t)
-       /\ hist' = Log([a |-> "update", t |-> t, m |-> m, pilots |-> pilots'])
+       /\ hist' = Log([a |-> "update", t |-> t, m |-> m, pilots |-> pilots', warnAgg |-> Warning(ConsAgg, m)])
     /\ UNCHANGED <<sess, recomp, MR, queue, t, batch, occ, evsePilot, dE, evE, chg, lastE, peakN,
                    evHist, seen, sigma, snap, ncrash, resumed>>
 
